@@ -284,6 +284,7 @@ impl PathSliceList {
                     let mut prepend = String::new();
                     let mut need_object_assign = false;
                     let mut next_need_comma_sep = false;
+                    let mut spread_subs: Vec<String> = vec![];
                     for (key, sub_pas_str, sub_p) in v.iter() {
                         let mut sub_s = String::new();
                         let sub_pas_str = sub_pas_str.to_path_analysis_str(
@@ -302,26 +303,44 @@ impl PathSliceList {
                                     next_need_comma_sep = true;
                                 }
                                 None => {
-                                    write!(prepend, "({})===true||", sub_s)?;
-                                    write!(s, "}},X({}),{{", sub_s)?;
+                                    // the tree of a spread part is needed twice: bind it to a parameter
+                                    // (writing it out twice doubles the code for every nesting level)
+                                    let param = format!("$${}", spread_subs.len());
+                                    write!(prepend, "{}===true||", param)?;
+                                    write!(s, "}},X({}),{{", param)?;
+                                    spread_subs.push(sub_s);
                                     need_object_assign = true;
                                     next_need_comma_sep = false;
                                 }
                             }
                         }
                     }
-                    if is_template_data {
+                    let body = if is_template_data {
                         if need_object_assign {
-                            write!(ret, "{}Object.assign({{{}}})", prepend, s)?;
+                            format!("{}Object.assign({{{}}})", prepend, s)
                         } else {
-                            write!(ret, "{}{{{}}}", prepend, s)?;
+                            format!("{}{{{}}}", prepend, s)
                         }
                     } else {
                         if need_object_assign {
-                            write!(ret, "{}Q.b(Object.assign({{{}}}))", prepend, s)?;
+                            format!("{}Q.b(Object.assign({{{}}}))", prepend, s)
                         } else {
-                            write!(ret, "{}Q.b({{{}}})", prepend, s)?;
+                            format!("{}Q.b({{{}}})", prepend, s)
                         }
+                    };
+                    if spread_subs.is_empty() {
+                        write!(ret, "{}", body)?;
+                    } else {
+                        let params: Vec<String> = (0..spread_subs.len())
+                            .map(|i| format!("$${}", i))
+                            .collect();
+                        write!(
+                            ret,
+                            "(({})=>{})({})",
+                            params.join(","),
+                            body,
+                            spread_subs.join(",")
+                        )?;
                     }
                 }
                 PathSlice::CombineArr(v, spread) => {
